@@ -96,6 +96,19 @@ pub struct UniRunData {
     pub stuck_at_quiescence: Vec<u32>,
     pub pending_at_quiescence: u32,
     pub wakes_at_quiescence: u64,
+    /// ownership mode only (C05)
+    pub own: Option<OwnData>,
+}
+
+/// what the ownership mode (C05's engine-T scenario) found out at the end of a run
+#[derive(Default, Debug, Clone)]
+pub struct OwnData {
+    /// at quiescence, channel alive, everything consumed and released: (event, created, destroyed) of those not destroyed exactly once
+    pub undestroyed_after_release: Vec<(u32, u32, u32)>,
+    /// (sends accepted into the emptied channel, a further one accepted?)
+    pub capacity_after: Option<(u32, bool)>,
+    /// after the final drain
+    pub undestroyed_at_end: Vec<(u32, u32, u32)>,
 }
 
 pub fn event_id(producer: usize, seq: usize) -> u32 {
@@ -155,6 +168,9 @@ pub fn producer_thread(ch: ChanArc, shared: Arc<Mutex<Shared>>, t: usize, ops: V
         ctx::op_mark("");
         let (w1, m1) = ctx::my_wake_counters();
         let ret = ctx::stamp();
+        ctx::with_ctx(|c| {
+            c.ledger.sent_done.insert(id);
+        });
         ctx::trace(|| format!("producer {} {}({:#x}) -> {}", t, entry.name(), id, if accepted { "accepted" } else { "rejected" }));
         shared.lock().unwrap().events.push(Ev { thread: t, kind: EvKind::SendOp(*entry), id, inv, ret, accepted, ended: false, intact, setter_invoked_on_reject: invoked, addr: 0, wakes_delivered: w1 - w0, wake_misses: m1 - m0 });
         if ctx::aborted() {
@@ -170,11 +186,26 @@ pub struct DriverCfg {
     pub waker_churn: bool,
 }
 
+fn release_one(shared: &Arc<Mutex<Shared>>, thread_no: usize, own: bool, id: u32, h: Box<dyn HandleDyn>) {
+    let (hid, ok) = (h.id(), h.intact());
+    let inv = ctx::stamp();
+    if own {
+        crate::scn_held::own_release(id, h);
+    } else {
+        drop(h);
+    }
+    let ret = ctx::stamp();
+    shared.lock().unwrap().events.push(Ev { thread: thread_no, kind: EvKind::Release, id: hid, inv, ret, accepted: true, ended: false, intact: ok, setter_invoked_on_reject: false, addr: 0, wakes_delivered: 0, wake_misses: 0 });
+}
+
 /// A stream driven the way an executor would: polled, parked on Pending, re-polled when woken.
+/// In ownership mode (`Ledger::own`, C05) the driver also behaves like an owner of what it is yielded: see `scn_held`.
 pub fn driver_thread(mut stream: Box<dyn StreamDyn>, shared: Arc<Mutex<Shared>>, driver: usize, thread_no: usize, cfg: DriverCfg) {
     harness::register_current_thread(driver);
     let mut waker = harness::waker_for(driver);
-    let mut held: Vec<Box<dyn HandleDyn>> = vec![];
+    let own_cfg = crate::scn_held::own_cfg();
+    let own = own_cfg.is_some();
+    let mut held: Vec<(u32, Box<dyn HandleDyn>)> = vec![];
     let mut churn_left = 3;
     loop {
         if harness::with_driver(driver, |d| d.stop.get()) || ctx::aborted() {
@@ -199,14 +230,21 @@ pub fn driver_thread(mut stream: Box<dyn StreamDyn>, shared: Arc<Mutex<Shared>>,
                 let (id, intact, addr) = (handle.id(), handle.intact(), handle.addr());
                 ctx::trace(|| format!("driver {} yielded {:#x}", driver, id));
                 shared.lock().unwrap().events.push(Ev { thread: thread_no, kind: EvKind::Poll, id, inv, ret, accepted: true, ended: false, intact, setter_invoked_on_reject: false, addr, wakes_delivered: 0, wake_misses: 0 });
-                held.push(handle);
+                if own {
+                    crate::scn_held::own_on_yield(id, &*handle);
+                }
+                held.push((id, handle));
+                if let Some(oc) = own_cfg.as_ref() {
+                    crate::scn_held::own_extras(oc, &mut held);
+                }
                 while held.len() > cfg.hold as usize {
-                    let h = held.remove(0);
-                    let (hid, ok) = (h.id(), h.intact());
-                    let inv = ctx::stamp();
-                    drop(h);
-                    let ret = ctx::stamp();
-                    shared.lock().unwrap().events.push(Ev { thread: thread_no, kind: EvKind::Release, id: hid, inv, ret, accepted: true, ended: false, intact: ok, setter_invoked_on_reject: false, addr: 0, wakes_delivered: 0, wake_misses: 0 });
+                    // ownership mode: any of the held handles may go first
+                    let i = if own { ctx::draw_below(held.len() as u64) as usize } else { 0 };
+                    let (hid, h) = held.remove(i);
+                    release_one(&shared, thread_no, own, hid, h);
+                }
+                if own {
+                    crate::scn_held::own_touch(&held);
                 }
                 harness_point();
             }
@@ -219,12 +257,8 @@ pub fn driver_thread(mut stream: Box<dyn StreamDyn>, shared: Arc<Mutex<Shared>>,
                 shared.lock().unwrap().events.push(Ev { thread: thread_no, kind: EvKind::Poll, id: 0, inv, ret, accepted: false, ended: false, intact: true, setter_invoked_on_reject: false, addr: 0, wakes_delivered: 0, wake_misses: 0 });
                 // release everything held before parking (an executor task that awaits the next item keeps nothing)
                 while !held.is_empty() {
-                    let h = held.remove(0);
-                    let (hid, ok) = (h.id(), h.intact());
-                    let inv = ctx::stamp();
-                    drop(h);
-                    let ret = ctx::stamp();
-                    shared.lock().unwrap().events.push(Ev { thread: thread_no, kind: EvKind::Release, id: hid, inv, ret, accepted: true, ended: false, intact: ok, setter_invoked_on_reject: false, addr: 0, wakes_delivered: 0, wake_misses: 0 });
+                    let (hid, h) = held.remove(0);
+                    release_one(&shared, thread_no, own, hid, h);
                 }
                 let producers_active = shared.lock().unwrap().producers_active > 0;
                 if producers_active && cfg.spurious_poll > 0 && ctx::draw_below(1024) < cfg.spurious_poll as u64 {
@@ -242,12 +276,8 @@ pub fn driver_thread(mut stream: Box<dyn StreamDyn>, shared: Arc<Mutex<Shared>>,
         }
     }
     while !held.is_empty() {
-        let h = held.remove(0);
-        let (hid, ok) = (h.id(), h.intact());
-        let inv = ctx::stamp();
-        drop(h);
-        let ret = ctx::stamp();
-        shared.lock().unwrap().events.push(Ev { thread: thread_no, kind: EvKind::Release, id: hid, inv, ret, accepted: true, ended: false, intact: ok, setter_invoked_on_reject: false, addr: 0, wakes_delivered: 0, wake_misses: 0 });
+        let (hid, h) = held.remove(0);
+        release_one(&shared, thread_no, own, hid, h);
     }
     drop(stream);
     harness::mark_done(driver);
@@ -259,6 +289,12 @@ fn yielded_count(shared: &Arc<Mutex<Shared>>) -> usize {
 
 /// The body of one run (executes as the main simulated thread).
 pub fn uni_body(p: &UniParams, flush_and_end: bool) -> UniRunData {
+    uni_body_ex(p, flush_and_end, false)
+}
+
+/// `own`: ownership mode (C05) -- a releaser thread takes the handles the drivers hand over; at quiescence the
+/// destruction ledger is judged, then the emptied channel's capacity, then a final drain
+pub fn uni_body_ex(p: &UniParams, flush_and_end: bool, own: bool) -> UniRunData {
     harness::reset();
     let ch: ChanArc = Arc::new(chan::make::<Tracked>(p.kind, p.buffer, p.max_streams, "unused"));
     let shared = Arc::new(Mutex::new(Shared { events: vec![], producers_active: p.producers.len() }));
@@ -281,6 +317,15 @@ pub fn uni_body(p: &UniParams, flush_and_end: bool) -> UniRunData {
         let cfg = DriverCfg { hold: p.hold, spurious_poll: p.spurious_poll, waker_churn: p.waker_churn };
         let thread_no = 1 + n_prod + s;
         handles.push(shuttle::thread::spawn(move || driver_thread(stream, shared2, d, thread_no, cfg)));
+    }
+    let releaser = if own { Some(shuttle::thread::spawn(crate::scn_held::releaser_thread)) } else { None };
+    if own {
+        // the events put in before anything else started count as sent
+        ctx::with_ctx(|c| {
+            for i in 0..p.prefill {
+                c.ledger.sent_done.insert(prefill_id(i));
+            }
+        });
     }
     let mut prod_handles = vec![];
     #[allow(clippy::needless_range_loop)]
@@ -374,8 +419,72 @@ pub fn uni_body(p: &UniParams, flush_and_end: bool) -> UniRunData {
             }
         }
     }
+    let mut own_data = None;
+    if own && !ctx::aborted() {
+        let mut od = OwnData::default();
+        // everything the drivers handed over has been dropped by the releaser thread
+        let mut spins = 0u64;
+        while !crate::scn_held::releaser_idle() && !ctx::aborted() {
+            harness_yield();
+            spins += 1;
+            if spins > 100_000 {
+                panic!("harness: the releaser thread never became idle");
+            }
+        }
+        // verdict 1: channel alive, every driver parked holding nothing: whatever was yielded (or rejected) is destroyed
+        let judged: Vec<u32> = shared.lock().unwrap().events.iter().filter(|e| (e.kind == EvKind::Poll && e.accepted) || (matches!(e.kind, EvKind::SendOp(_)) && !e.accepted)).map(|e| e.id).collect();
+        od.undestroyed_after_release = crate::scn_held::not_destroyed_once(&judged);
+        // stop the consumers (their streams are dropped) and the releaser
+        for d in drivers.iter() {
+            harness::stop_driver(*d);
+        }
+        for h in handles.drain(..) {
+            let _ = h.join();
+        }
+        crate::scn_held::stop_releaser();
+        if let Some(h) = releaser {
+            let _ = h.join();
+        }
+        let all_delivered = {
+            let sh = shared.lock().unwrap();
+            sh.events.iter().filter(|e| matches!(e.kind, EvKind::SendOp(_)) && e.accepted).all(|s| sh.events.iter().any(|e| e.kind == EvKind::Poll && e.accepted && e.id == s.id))
+        };
+        if !ctx::aborted() && all_delivered {
+            // verdict 2: the emptied channel takes exactly BUFFER_SIZE events
+            let mut accepted = 0u32;
+            for i in 0..p.buffer as u32 {
+                if ch.send(0x7D00 | (i + 1)).accepted() {
+                    accepted += 1;
+                }
+            }
+            let one_more = ch.send(0x7DFF).accepted();
+            od.capacity_after = Some((accepted, one_more));
+            // final drain through a fresh stream (its id was vacated by the streams dropped above)
+            let waker = futures::task::noop_waker();
+            let mut cx = Context::from_waker(&waker);
+            let mut stream = ch.create_stream();
+            let mut guard = 0;
+            while let Poll::Ready(Some(h)) = stream.poll(&mut cx) {
+                drop(h);
+                guard += 1;
+                if guard > 64 {
+                    break;
+                }
+            }
+            drop(stream);
+            // verdict 3: nothing buffered, nothing held: every payload ever created is gone
+            let all: Vec<u32> = ctx::with_ctx(|c| c.ledger.ids.keys().copied().collect()).unwrap_or_default();
+            od.undestroyed_at_end = crate::scn_held::not_destroyed_once(&all);
+        }
+        own_data = Some(od);
+    } else if let Some(h) = releaser {
+        crate::scn_held::stop_releaser();
+        if !ctx::aborted() {
+            let _ = h.join();
+        }
+    }
     // end of run: tell the streams to end, then stop the drivers whatever they answered
-    if !ctx::aborted() {
+    if !ctx::aborted() && !own {
         ch.cancel_all();
     }
     for d in drivers.iter() {
@@ -385,7 +494,7 @@ pub fn uni_body(p: &UniParams, flush_and_end: bool) -> UniRunData {
         let _ = h.join();
     }
     let events = std::mem::take(&mut shared.lock().unwrap().events);
-    UniRunData { events, blocked_producer, stuck_at_quiescence: stuck, pending_at_quiescence: pending, wakes_at_quiescence: wakes }
+    UniRunData { events, blocked_producer, stuck_at_quiescence: stuck, pending_at_quiescence: pending, wakes_at_quiescence: wakes, own: own_data }
 }
 
 pub fn entry_of(events: &[Ev], id: u32) -> &'static str {
